@@ -195,6 +195,36 @@ func c14RaceSuites(tier string) []*Suite {
 	return ss
 }
 
+// c10RaceSuites: an accepted fold / call / check that closes a betting round while the hand goes on, the
+// answering call running against the hand's own updater goroutine (fine mode): the published action event
+// must name the round and hand the action was made in.
+func c10RaceSuites(tier string) []*Suite {
+	bound := 1
+	if tier == "thorough" {
+		bound = 2
+	}
+	type sc struct {
+		name string
+		n    int
+		line string
+		nth  int
+	}
+	var ss []*Suite
+	for _, c := range []sc{{"fold-n3", 3, "raise-call-fold", 2}, {"call-n2", 2, "raise-call-fold", 1}, {"check-n3", 3, "checkdown", 2}, {"check-n2", 2, "checkdown", 1}} {
+		c := c
+		var init []seatSpec
+		for i, id := range []string{"a", "b", "c"}[:c.n] {
+			init = append(init, seatSpec{id: id, seat: i, chips: 12, joined: true})
+		}
+		hc := &histCfg{name: "race-round-closing/" + c.name, tcfg: defaultCfg(4), init: init, hands: 1, lines: []string{c.line}, decks: []string{"asc"}, finish: []string{"all"}, newStack: 3,
+			race: &raceCfg{nth: c.nth, op: "noop:event"}}
+		ss = append(ss, &Suite{Name: "c10/" + hc.name, Bound: bound, Weight: 20, Run: func(prefix []int) *vrt.Exec {
+			return runHist(prefix, hc, vrt.Config{FineAll: true}, func(h *hist) []Monitor { return []Monitor{&monRaceViol{h: h}} })
+		}})
+	}
+	return ss
+}
+
 // monInvariant: the C03 bookkeeping invariant at every quiescent point.
 type monInvariant struct{ baseMon }
 
